@@ -75,10 +75,12 @@ PathOf(st) == [i \in 1..Len(st) |-> <<st[i].target, IF st[i].ctx.idx[st[i].targe
 
 (* ---- alphabet ------------------------------------------------------------------------------------ *)
 Op(op, t, kind, v) == [op |-> op, t |-> t, kind |-> kind, v |-> v]
-(* "bytes" (one byte, value 165), "bits" (a 3-bit bit array 1,0,1, value 5) and "uint_lit" (one byte) are the  *)
-(* fixed-width primitives that no VC-2 syntax element places inside a bounded block -- a serdes program may.    *)
-PrimVals == [bool |-> {1}, nbits |-> {2}, uint |-> {0, 3}, sint |-> {-1}, bytes |-> {165}, bits |-> {5}, uint_lit |-> {165}]
-PrimOps == {Op("prim", t, kd, v) : t \in PrimTargets, kd \in PrimKinds, v \in {0, 1, 2, 3, -1, 5, 165}}
+(* "bytes" (one byte), "bits" (a 3-bit bit array, value 3 = 0,1,1) and "uint_lit" (one byte) are the fixed-width *)
+(* primitives that no VC-2 syntax element places inside a bounded block -- a serdes program may.  The values   *)
+(* end in 1s (175 = 1010 1111), so that a block ending inside the value can still be serialised (only 1s may    *)
+(* fall past the end of a bounded block) and must read back as written.                                        *)
+PrimVals == [bool |-> {1}, nbits |-> {2}, uint |-> {0, 3}, sint |-> {-1}, bytes |-> {175}, bits |-> {3}, uint_lit |-> {175}]
+PrimOps == {Op("prim", t, kd, v) : t \in PrimTargets, kd \in PrimKinds, v \in {0, 1, 2, 3, -1, 175}}
 AllOps ==   {o \in PrimOps : o.v \in PrimVals[o.kind]}
        \cup {Op("declare_list", t, "", 0) : t \in ListTargets}
        \cup {Op("enter", t, "", 0) : t \in EnterTargets}
@@ -92,7 +94,7 @@ Ops == {o \in AllOps : o.op \in OpNames}
 
 NBITS == 2
 PrimIO(o) == CASE o.kind = "bytes"    -> [op |-> "bytes", n |-> 1, v |-> 0, s |-> <<o.v>>]
-               [] o.kind = "bits"     -> [op |-> "bitarray", n |-> 3, v |-> 0, s |-> <<1, 0, 1>>]
+               [] o.kind = "bits"     -> [op |-> "bitarray", n |-> 3, v |-> 0, s |-> <<0, 1, 1>>]
                [] o.kind = "uint_lit" -> [op |-> "uintlit", n |-> 1, v |-> o.v, s |-> <<>>]
                [] OTHER -> [op |-> IF o.kind = "bool" THEN "bit" ELSE o.kind, n |-> NBITS, v |-> o.v, s |-> <<>>]
 PadIO(n, b) == [op |-> "bitarray", n |-> n, v |-> 0, s |-> [i \in 1..n |-> b]]
